@@ -10,11 +10,23 @@
    auto_escape_stack.pop().unwrap() in the Rust code).
 
    Operand slots: [V] one value; [B] a counted bundle (k >= 0 values with their count on top:
-   what UnpackLists pushes and what the filtered-loop idiom of codegen.rs accumulates). *)
+   what UnpackLists pushes and what the filtered-loop idiom of codegen.rs accumulates).
+
+   Recursive loops (`for .. recursive`, `loop(x)`).  The VM re-enters a loop from a call site
+   (FastRecurse, or CallFunction whose callee turns out to be a loop object) by jumping to the
+   loop's PushLoop with the argument on the operand stack; the new loop frame remembers where
+   to go back to ([ret] = (return pc, end_capture)), and PopLoopFrame on such a frame does not
+   fall through but returns there (vm/mod.rs, `recurse_loop!` and the PopLoopFrame arm).
+   [edges] contains the LOCAL successors of an instruction, where a call is the summary step
+   "argument consumed, result (if captured) pushed"; [call_edges] are the additional successors
+   of the real, interprocedural machine: the entry of every recursive loop of the stream (the
+   loop object is a value: it can be stored and called from anywhere in the stream). *)
 From MJ Require Import Common.Base.
 Local Open Scope nat_scope.
 
-Inductive fk := FWith | FLoop.
+Inductive fk :=
+| FWith
+| FLoop (ret : option (nat * bool)).   (* Some (pc, end_capture): frame of a loop entered by a recursion call *)
 Inductive slot := V | B.
 
 Record shape := mkShape { frames : list fk; caps : nat; aes : nat; stk : list slot }.
@@ -27,8 +39,8 @@ Inductive instr :=
 | ISwap
 | IBin                            (* binary operator: 2 -> 1; count + 1 on a bundle *)
 | IPushWith | IPopFrame
-| IPushLoop                       (* pops the iterable, pushes a loop frame *)
-| IPopLoopFrame
+| IPushLoop (recursive : bool)    (* pops the iterable, pushes a loop frame; LOOP_FLAG_RECURSIVE *)
+| IPopLoopFrame (ret_pops : nat)  (* ret_pops: operands the VM pops here when it returns from a recursion call *)
 | IIterate (t : nat)
 | IDidNotIterate
 | IJump (t : nat)
@@ -36,9 +48,18 @@ Inductive instr :=
 | IJumpOrPop (t : nat)            (* JumpIfFalseOrPop / JumpIfTrueOrPop *)
 | IPushAE | IPopAE
 | IBeginCapture | IEndCapture
-| IReturn.
+| IReturn
+| ICall (dyn : bool)              (* CallFunction with one argument (dyn: a counted bundle): the callee may be a loop object *)
+| IRecurse.                       (* FastRecurse *)
 
-Definition fk_eqb (a b : fk) : bool := match a, b with FWith, FWith | FLoop, FLoop => true | _, _ => false end.
+Definition opt_eqb (a b : option (nat * bool)) : bool :=
+  match a, b with
+  | None, None => true
+  | Some (p, c), Some (q, d) => Nat.eqb p q && Bool.eqb c d
+  | _, _ => false
+  end.
+Definition fk_eqb (a b : fk) : bool :=
+  match a, b with FWith, FWith => true | FLoop x, FLoop y => opt_eqb x y | _, _ => false end.
 Definition slot_eqb (a b : slot) : bool := match a, b with V, V | B, B => true | _, _ => false end.
 Fixpoint list_eqb {A} (e : A -> A -> bool) (a b : list A) : bool :=
   match a, b with
@@ -61,9 +82,13 @@ Fixpoint popV (n : nat) (k : list slot) : option (list slot) :=
   end.
 Definition pushV (n : nat) (k : list slot) : list slot := repeat V n ++ k.
 
-Definition has_loop (f : list fk) : bool := existsb (fk_eqb FLoop) f.
+Definition is_loop (f : fk) : bool := match f with FLoop _ => true | FWith => false end.
+Definition has_loop (f : list fk) : bool := existsb is_loop f.
 
-(* every successor of instruction [i] at [pc] in shape [s]; None = stuck *)
+Definition capn (cap : bool) : nat := if cap then 1 else 0.
+Definition capv (cap : bool) : list slot := if cap then [V] else [].
+
+(* every LOCAL successor of instruction [i] at [pc] in shape [s]; None = stuck *)
 Definition edges (i : instr) (pc : nat) (s : shape) : option (list (nat * shape)) :=
   let next s' := Some [(S pc, s')] in
   match i with
@@ -82,10 +107,25 @@ Definition edges (i : instr) (pc : nat) (s : shape) : option (list (nat * shape)
             | _ => None end
   | IPushWith => next (with_frames s (FWith :: frames s))
   | IPopFrame => match frames s with FWith :: f => next (with_frames s f) | _ => None end
-  | IPushLoop => match stk s with
-                 | V :: k => next (mkShape (FLoop :: frames s) (caps s) (aes s) k)
-                 | _ => None end
-  | IPopLoopFrame => match frames s with FLoop :: f => next (with_frames s f) | _ => None end
+  | IPushLoop _ => match stk s with
+                   | V :: k => next (mkShape (FLoop None :: frames s) (caps s) (aes s) k)
+                   | _ => None end
+  | IPopLoopFrame rp =>
+      match frames s with
+      | FLoop None :: f => next (with_frames s f)
+      | FLoop (Some (r, cap)) :: f =>
+          (* return from a recursion call: the frame goes, the VM pops [rp] operands, ends the
+             capture of a capturing call (its content is the call's value) and continues at r *)
+          match popV rp (stk s) with
+          | Some k =>
+              if cap then match caps s with
+                          | S c => Some [(r, mkShape f c (aes s) (V :: k))]
+                          | O => None end
+              else Some [(r, mkShape f (caps s) (aes s) k)]
+          | None => None
+          end
+      | _ => None
+      end
   | IIterate t => if has_loop (frames s)
                   then Some [(S pc, with_stk s (V :: stk s)); (t, s)] else None
   | IDidNotIterate => if has_loop (frames s) then next (with_stk s (V :: stk s)) else None
@@ -99,55 +139,119 @@ Definition edges (i : instr) (pc : nat) (s : shape) : option (list (nat * shape)
                    | S c => next (mkShape (frames s) c (aes s) (V :: stk s))
                    | O => None end
   | IReturn => Some []
+  (* calls, summarised: the argument is consumed; a capturing call leaves its value *)
+  | ICall false => match stk s with V :: k => next (with_stk s (V :: k)) | _ => None end
+  | ICall true => match stk s with B :: k => next (with_stk s (V :: k)) | _ => None end
+  | IRecurse => match stk s with V :: k => next (with_stk s k) | _ => None end
+  end.
+
+(* ---- the interprocedural part ---- *)
+
+(* a call instruction in shape [s]: (does the call capture?, the operand stack below the argument) *)
+Definition call_arg (i : instr) (s : shape) : option (bool * list slot) :=
+  match i, stk s with
+  | ICall false, V :: k => Some (true, k)
+  | ICall true, B :: k => Some (true, k)      (* a bundle of dynamic size one *)
+  | IRecurse, V :: k => Some (false, k)
+  | _, _ => None
+  end.
+
+Fixpoint rec_from (pc : nat) (C : list instr) : list nat :=
+  match C with
+  | [] => []
+  | IPushLoop true :: r => pc :: rec_from (S pc) r
+  | _ :: r => rec_from (S pc) r
+  end.
+(* the PushLoop instructions a recursion call can jump to *)
+Definition rec_targets (C : list instr) : list nat := rec_from 0 C.
+
+(* shape at the first body instruction of a loop entered by a call: one more loop frame that
+   remembers the way back, one more capture for a capturing call, relative to [base] *)
+Definition lift (b s : shape) : shape :=
+  mkShape (frames s ++ frames b) (caps s + caps b) (aes s + aes b) (stk s ++ stk b).
+Definition reg_entry (r : nat) (cap : bool) : shape := mkShape [FLoop (Some (r, cap))] (capn cap) O [].
+Definition ret_rel (cap : bool) : shape := mkShape [] O O (capv cap).
+
+(* the additional successors of a call in the real machine: call + PushLoop of the target
+   (the VM jumps to the PushLoop, which takes the argument as iterable and the pending return
+   information into the new frame) *)
+Definition call_edges (C : list instr) (i : instr) (pc : nat) (s : shape) : list (nat * shape) :=
+  match call_arg i s with
+  | Some (cap, k) => map (fun p => (S p, lift (with_stk s k) (reg_entry (S pc) cap))) (rec_targets C)
+  | None => []
   end.
 
 (* the shape an activation must be in when it ends (Return, or running off the stream):
-   scope, capture and auto-escape depth as at entry.  Operands a construct pushed and left
-   behind (`do`, `from .. import` leave one) are tolerated: the property forbids discarding
-   what is not one's own, not leaving a surplus value below the live operands. *)
+   scope, capture and auto-escape depth as at entry and no operand left *)
 Definition final_ok (s : shape) : bool :=
-  match frames s, caps s, aes s with [], O, O => true | _, _, _ => false end.
+  match frames s, caps s, aes s, stk s with [], O, O, [] => true | _, _, _, _ => false end.
 
-(* [sub a b]: same frames, captures and auto-escapes, and the operand stack of [a] is the top
-   part of the operand stack of [b] (b may hold surplus values underneath) *)
-Fixpoint is_prefix (a b : list slot) : bool :=
-  match a, b with
-  | [], _ => true
-  | x :: a, y :: b => slot_eqb x y && is_prefix a b
-  | _ :: _, [] => false
-  end.
-Definition sub (a b : shape) : bool :=
-  list_eqb fk_eqb (frames a) (frames b) && Nat.eqb (caps a) (caps b) && Nat.eqb (aes a) (aes b)
-  && is_prefix (stk a) (stk b).
-
-(* ---- the checker: one annotated shape per reachable pc ---- *)
+(* ---- the checker: one annotated shape per reachable pc, per analysis ---- *)
 Definition ann := list (option shape).
 
-Definition target_ok (C : list instr) (A : ann) (t : nat * shape) : bool :=
-  let '(pc', s') := t in
-  if Nat.eqb pc' (length C) then final_ok s'
-  else match nth_error A pc' with Some (Some st) => sub st s' | _ => false end.
+(* what is analysed: None = the activation of an entry point of the stream (template body, macro
+   body, block); Some (r, cap) = one activation of a recursive loop, called from the site before r *)
+Definition mode := option (nat * bool).
 
-Definition check_at (C : list instr) (A : ann) (pc : nat) : bool :=
+Definition target_ok (C : list instr) (A : ann) (m : mode) (t : nat * shape) : bool :=
+  let '(pc', s') := t in
+  if Nat.eqb pc' (length C) then match m with None => final_ok s' | Some _ => false end
+  else match nth_error A pc' with Some (Some st) => shape_eqb st s' | _ => false end.
+
+(* the instruction returns from a recursion call *)
+Definition ret_of (i : instr) (s : shape) : option (nat * bool) :=
+  match i, frames s with IPopLoopFrame _, FLoop (Some rc) :: _ => Some rc | _, _ => None end.
+
+Definition check_at (C : list instr) (A : ann) (m : mode) (pc : nat) : bool :=
   match nth_error C pc, nth_error A pc with
   | Some i, Some (Some s) =>
       match edges i pc s with
       | None => false
-      | Some ts => forallb (target_ok C A) ts && (match i with IReturn => final_ok s | _ => true end)
+      | Some ts =>
+          match ret_of i s with
+          | Some rc =>
+              (* only the activation's own frame may return, and it must leave exactly the call's result *)
+              match m, ts with
+              | Some rc', [(_, s')] => opt_eqb (Some rc) (Some rc') && shape_eqb s' (ret_rel (snd rc))
+              | _, _ => false
+              end
+          | None =>
+              forallb (target_ok C A m) ts
+              && (match i with IReturn => match m with None => final_ok s | Some _ => false end | _ => true end)
+          end
       end
   | Some _, Some None => true        (* not reachable: unconstrained *)
   | _, _ => false
   end.
 
-Definition entry_ok (C : list instr) (A : ann) (e : nat * shape) : bool :=
-  let '(pc, s) := e in
-  if Nat.eqb pc (length C) then final_ok s
-  else match nth_error A pc with Some (Some st) => sub st s | _ => false end.
+Definition check_act (C : list instr) (A : ann) (m : mode) (entries : list (nat * shape)) : bool :=
+  Nat.eqb (length A) (length C) && forallb (target_ok C A m) entries && forallb (check_at C A m) (seq 0 (length C)).
 
-Definition check_ann (C : list instr) (A : ann) (entries : list (nat * shape)) : bool :=
-  Nat.eqb (length A) (length C) && forallb (entry_ok C A) entries && forallb (check_at C A) (seq 0 (length C)).
+(* one entry-point analysis (all calls summarised) *)
+Definition check_ann (C : list instr) (A : ann) (entries : list (nat * shape)) : bool := check_act C A None entries.
 
-(* ---- annotation inference (unverified; its result is checked by check_ann) ---- *)
+(* call sites: (return pc, captures?) *)
+Fixpoint sites_from (pc : nat) (C : list instr) : list (nat * bool) :=
+  match C with
+  | [] => []
+  | ICall _ :: r => (S pc, true) :: sites_from (S pc) r
+  | IRecurse :: r => (S pc, false) :: sites_from (S pc) r
+  | _ :: r => sites_from (S pc) r
+  end.
+Definition call_sites (C : list instr) : list (nat * bool) := sites_from 0 C.
+
+(* one analysis per (recursive loop, call site): the loop's activation on behalf of that site *)
+Definition regions (C : list instr) : list (nat * (nat * bool)) := list_prod (rec_targets C) (call_sites C).
+
+Definition check_region (C : list instr) (x : (nat * (nat * bool)) * ann) : bool :=
+  let '((p, rc), A) := x in check_act C A (Some rc) [(S p, reg_entry (fst rc) (snd rc))].
+
+(* the combined checker *)
+Definition check_rec (C : list instr) (Am : ann) (Ar : list ann) (entries : list (nat * shape)) : bool :=
+  check_act C Am None entries && Nat.eqb (length Ar) (length (regions C))
+  && forallb (check_region C) (combine (regions C) Ar).
+
+(* ---- annotation inference (unverified; its result is checked) ---- *)
 Fixpoint set_nth {A} (n : nat) (x : A) (l : list A) : list A :=
   match l, n with
   | [], _ => []
@@ -166,9 +270,9 @@ Fixpoint infer (gas : nat) (C : list instr) (work : list (nat * shape)) (A : ann
           | Some None =>
               let A' := set_nth pc (Some s) A in
               match nth_error C pc with
-              | Some i => match edges i pc s with
-                          | Some ts => infer g C (ts ++ w) A'
-                          | None => infer g C w A'
+              | Some i => match ret_of i s, edges i pc s with
+                          | None, Some ts => infer g C (ts ++ w) A'
+                          | _, _ => infer g C w A'       (* a return leaves the activation *)
                           end
               | None => infer g C w A'
               end
@@ -183,14 +287,50 @@ Definition entry_shape (nargs : nat) : shape := mkShape [] O O (repeat V nargs).
 Definition annotate (C : list instr) (entries : list (nat * shape)) : ann :=
   infer (4 * length C + 4 * length entries + 8) C entries (repeat None (length C)).
 
-(* verdict: Some pc = first pc the checker rejects (length C + 1 + k = entry k rejected); None = accepted *)
+(* verdict: Some pc = first pc the checker rejects (length C = an entry rejected); None = accepted *)
 Fixpoint first_bad (f : nat -> bool) (l : list nat) : option nat :=
   match l with [] => None | x :: r => if f x then first_bad f r else Some x end.
 
+Definition verdict_act (C : list instr) (m : mode) (entries : list (nat * shape)) : option nat :=
+  let A := annotate C entries in
+  if check_act C A m entries then None
+  else match first_bad (check_at C A m) (seq 0 (length C)) with
+       | Some pc => Some pc
+       | None => Some (length C)
+       end.
+
+(* entry-point analysis only (calls summarised) *)
 Definition verdict (C : list instr) (entries : list (nat * shape)) : option nat :=
   let A := annotate C entries in
   if check_ann C A entries then None
-  else match first_bad (check_at C A) (seq 0 (length C)) with
+  else match first_bad (check_at C A None) (seq 0 (length C)) with
        | Some pc => Some pc
        | None => Some (length C)
+       end.
+
+Definition region_entries (x : nat * (nat * bool)) : list (nat * shape) :=
+  let '(p, rc) := x in [(S p, reg_entry (fst rc) (snd rc))].
+
+Definition annotate_regions (C : list instr) : list ann :=
+  map (fun x => annotate C (region_entries x)) (regions C).
+
+(* the combined verdict: None = accepted; Some (k, pc): analysis k rejected at pc, where k = 0 is the
+   entry-point analysis and k = j + 1 the j-th region of [regions C] *)
+Fixpoint first_bad_region (C : list instr) (k : nat) (l : list (nat * (nat * bool))) : option (nat * nat) :=
+  match l with
+  | [] => None
+  | x :: r => match verdict_act C (Some (snd x)) (region_entries x) with
+              | Some pc => Some (k, pc)
+              | None => first_bad_region C (S k) r
+              end
+  end.
+
+Definition verdict_rec (C : list instr) (entries : list (nat * shape)) : option (nat * nat) :=
+  if check_rec C (annotate C entries) (annotate_regions C) entries then None
+  else match verdict C entries with
+       | Some pc => Some (0, pc)
+       | None => match first_bad_region C 1 (regions C) with
+                 | Some r => Some r
+                 | None => Some (0, S (length C))     (* not expected: the parts accept, the whole does not *)
+                 end
        end.
